@@ -251,6 +251,18 @@ pub fn run_job(job: &Value, slot: u32, serial: u32, progress: &Progress) -> JobO
                                     std::thread::sleep(rest);
                                 }
                                 if step["close"].as_bool().unwrap_or(false) {
+                                    // the idle period before the close is counted from the moment the source
+                                    // has TAKEN everything that was fed (on a loaded machine the job may start
+                                    // late and the absolute schedule would leave no idle time at all)
+                                    if let Some(ms) = step["after_drained_ms"].as_u64() {
+                                        let t1 = Instant::now();
+                                        while feeds.iter().any(|(_, tx)| !tx.is_empty())
+                                            && t1.elapsed() < Duration::from_secs(60)
+                                        {
+                                            std::thread::sleep(Duration::from_millis(2));
+                                        }
+                                        std::thread::sleep(Duration::from_millis(ms));
+                                    }
                                     Session::note(json!({"ev": "close"}));
                                     feeds.clear();
                                     continue;
